@@ -24,6 +24,9 @@ var c10Parser, _ = parsers.NewESDTTransferParser(&hMarshalizer{})
 type c10Msg struct {
 	fn   string
 	cont bool // continuation of a built-in operation (from an output transfer, or a travelling ESDTTransfer)
+	// the call type of the origin-side execution that emitted the message, when it is one that lifts the payability check
+	// (callback, transfer-and-execute): the continuation must not be refused for payability then
+	exempt bool
 }
 type c10World struct{ msgs map[int]*c10Msg }
 type c10Mon struct {
@@ -177,6 +180,8 @@ func (m *c10Mon) mon(c *ctx, w *hWorld, _ *worldSnap, sr *stepResult, hist []str
 			switch {
 			case res.Status == 0:
 				c.count("C10/continuation/" + rec.fn + "/accepted")
+			case rec.exempt && isTransferFn(rec.fn) && errors.Is(res.Err, builtInFunctions.ErrAccountNotPayable):
+				fail("continuation-rejected", fmt.Sprintf("the %s message emitted by an origin-side execution whose call type lifts the payability check (callback / transfer-and-execute) is refused on the destination shard as not payable: the message does not carry what the destination side needs (call type %d)", rec.fn, cs.CallType))
 			case c10AllowedReject(res.Err) != "":
 				c.count("C10/continuation/" + rec.fn + "/refused: " + c10AllowedReject(res.Err))
 			case bytes.Equal(cs.Rcpt, vmcommon.SystemAccountAddress):
@@ -191,7 +196,8 @@ func (m *c10Mon) mon(c *ctx, w *hWorld, _ *worldSnap, sr *stepResult, hist []str
 		return
 	}
 	for _, mm := range sr.NewMsgs {
-		st.msgs[mm.ID] = &c10Msg{fn: mm.Fn, cont: mm.Fn != "ChangeOwnerAddress" && mm.Fn != "ClaimDeveloperRewards"}
+		st.msgs[mm.ID] = &c10Msg{fn: mm.Fn, cont: mm.Fn != "ChangeOwnerAddress" && mm.Fn != "ClaimDeveloperRewards",
+			exempt: (sr.Op.Kind == opTx || sr.Op.Kind == opSys) && (cs.CallType == vmcommon.AsynchronousCallBack || cs.CallType == vmcommon.ESDTTransferAndExecute)}
 	}
 	m.checkData(c, w, sr, hist, fail, f10)
 	if isTransferFn(cs.Fn) {
